@@ -32,7 +32,58 @@ def con_extra(names):
     return f
 
 
+REAL_STUB_SEQ = {
+    'real': ['every eventpp header under test with its real policies (SingleThreading, MultipleThreading with std::mutex, GeneralThreading<SpinLock>)',
+             'std::function', 'std::shared_ptr / std::weak_ptr', 'std::list / std::map / std::unordered_map'],
+    'stub': ['operator new/delete -> counting / failing wrapper over malloc (only while a fault is armed)',
+             'in the *-one-task variants: std::mutex -> sim::SimMutex inside a single simulated task (self-deadlock becomes a violation)'],
+}
+
+SEQ_ASSUMPTIONS = [
+    'No schedule and no clock in this property: the simulator runs in its one-task configuration; what is searched is the space of operation histories (seeded), judged against a reference model after every step.',
+    'A clean batch is evidence from seeded sampling of histories, not a proof.',
+]
+
+
+def seq_extra(merged):
+    probes, faults = {}, {}
+    for m in merged.values():
+        for k, v in m.get('probes', {}).items():
+            probes[k] = max(probes.get(k, 0), v) if k.startswith('max_') else probes.get(k, 0) + v
+        for k, v in m.get('faults', {}).items():
+            faults[k] = faults.get(k, 0) + v
+    sub = sum(m.get('sub_runs', 0) for m in merged.values())
+    return {'probes': probes, 'faults_fired': faults, 'executions_including_fault_reruns': sub, 'simulated_time_ns': 0}
+
+
+def seq_prop(engine, stages, technique, level_text, level_note, rule, level='exploration', assumptions=None):
+    return {'engine': engine, 'level': level, 'technique': technique, 'level_text': level_text, 'level_note': level_note, 'stages': stages,
+            'rule': rule, 'real_vs_stub': REAL_STUB_SEQ, 'assumptions': SEQ_ASSUMPTIONS + (assumptions or []), 'extra_coverage': seq_extra}
+
+
+def st(name, binary, mode, quick, thorough, tq=90, tt=900):
+    return {'name': name, 'bin': binary, 'mode': mode, 'runs': {'quick': quick, 'thorough': thorough}, 'time': {'quick': tq, 'thorough': tt}}
+
+
 PROPS = {
+    'C01': seq_prop('seq_list', [st('c01', 'seq_list', 'c01', 400000, 8000000)],
+        'seeded operation histories (simulator in its one-task, fault-free configuration) refined against a reference list model; same harness that C09 runs with faults',
+        'Seeded search over histories of append/prepend/insert/remove/ownsHandle/empty/invoke/forEach/forEachIf and the eventutil helpers with live, stale, empty and repeated handles; every return value, every invocation trace with argument values and the full observable content are compared with a vector-based model after every step; lists are drained at the end.',
+        'Trusted: the reference model (sim-independent, ~100 lines) and the ledger. This is the fault-free control configuration of the C09 harness; no scheduler or fault is involved because the property has none.',
+        'Each evaluation is one seeded history of 8-40 operations on a CallbackList<void(int, Payload)> (SingleThreading, MultipleThreading, or a comparable custom Callback type for hasListener/removeListener). '
+        'Non-trivial = the history contains at least one invocation; distinct = distinct plan hashes.'),
+    'C02': seq_prop('seq_list', [st('c02', 'seq_list', 'c02', 300000, 6000000)],
+        'seeded re-entrant programs (callbacks carry scripts) executed in lockstep with a snapshot-semantics model; SimMutex / SpinLock one-task variants turn self-deadlock into a deterministic violation; ASan + ledger',
+        'Seeded search over programs in which callbacks, to nesting depth 4, append/prepend/insert/remove (themselves and others)/enumerate/re-invoke the list being invoked and other lists of the same dispatcher. Every callback the real code runs is compared, at the moment it runs, with what snapshot semantics predicts; results of operations through removed handles are checked at every depth; content is compared after the outermost invocation; lists are drained.',
+        'Trusted: the snapshot-semantics model, the ledger, the watchdog for real hangs. Policies: SingleThreading, MultipleThreading, real SpinLock, and SimMutex/SpinLock inside one simulated task.',
+        'Each evaluation is one seeded program: a history of 8-40 top-level operations whose added callbacks carry scripts (1-3 operations each, nested scripts allowed, global fuel 6-30) on CallbackList or EventDispatcher under one of 9 policy variants. '
+        'Non-trivial = at least one added callback carries a script; distinct = distinct plan hashes.'),
+    'C19': seq_prop('seq_list', [st('c19', 'seq_list', 'c19', 300000, 6000000)],
+        'seeded histories with a generation-clock jump fault (guarded accessor) placed anywhere, including inside nested invocations; lockstep snapshot model with the statement\'s own relaxation for invocations in progress at the wrap',
+        'The wrap of the 32-bit generation counter is injected as a forward clock jump on the list\'s logical clock (k = 0..6 additions before the maximum) at seeded points of re-entrant copy/move/swap histories. The harness learns the wrap moment by observation; only invocations in progress at that moment get the statement\'s relaxation, every later invocation is held to the strict model.',
+        'Trusted: the accessor added under EVENTPP_VERIF sets the counter consistently (forward only, every existing generation stays <= the counter).',
+        'Each evaluation is one seeded program as in C02/C10 on CallbackList with warp(k) operations at top level and inside callback scripts. Non-trivial = the plan contains a warp; distinct = distinct plan hashes.'),
+
     'C03': {
         'engine': 'con_list',
         'level': 'exploration',
